@@ -8,6 +8,7 @@ SABOTAGE = [
     ("MCArrayApi_abGetAxis.cfg", ["TableNoPanic", "NoPanic"]),
     ("MCArrayApi_abView0Dim.cfg", ["NoPanic", "YieldsExpectedPrefix", "Fused"]),
     ("MCArrayApi_abNth.cfg", ["LenExact", "NoPanic", "YieldsExpectedPrefix"]),
+    ("MCArrayApi_abClone.cfg", ["LenExact", "YieldsExpectedPrefix", "Fused"]),
 ]
 
 
